@@ -6,19 +6,23 @@ Open Scope N_scope.
 
 Definition H := mkH.
 
+Inductive hres := HR (h : hlv) (c : N).
+
+(* nested list literals are slow to elaborate: tables are flattened (row-major) or packed into numbers *)
 Inductive case :=
 (* a history over replicas 1..3: after every event the outcome and the vector of the acting replica *)
 | CHistory (evs : list ev) (obs : list (outcome * hlv))
 (* tables over one vector: GetValue and maxValueForSource for every s in ss, DominatesSource for ss x vs *)
-| CUnary (h : hlv) (ss vs : list N) (gv : list (option N)) (mx : list N) (dom : list (list bool))
+| CUnary (h : hlv) (ss vs : list N) (gv : list (option N)) (mx : list N) (dom : list bool)
 (* InvalidateMV, AddVersion (ss x vs), AddVersionToPV (ss x vs, with the outcome code) on copies of one vector *)
-| CMut (h : hlv) (ss vs : list N) (inv : hlv) (av : list (list (option hlv))) (atp : list (list (hlv * N)))
+| CMut (h : hlv) (ss vs : list N) (inv : hlv) (av : list (option hlv)) (atp : list hres)
 (* UpdateHistory(h, inc) and MergeWithIncomingHLV(h, (s,v), inc) for every inc of a list *)
 | CBinRow (h : hlv) (incs : list hlv) (uh : list hlv) (s v : N) (mg : list (option hlv))
 | CGetValue (h : hlv) (s : N) (r : option N)
 | CDominates (h : hlv) (s v : N) (r : bool)
-(* table.[i].[j] = IsInConflict(local = hs[i], incoming = hs[j]); 1 no conflict, 2 conflict, 3 already present *)
-| CConflictTable (hs : list hlv) (rows : list (list N))
+(* IsInConflict(local = hs[i], incoming = hs[j]) coded 1 no conflict, 2 conflict, 3 already present;
+   rows[i] = sum over j of code(i,j) * 4^j *)
+| CConflictTable (hs : list hlv) (rows : list N)
 | CConflict (hl hi : hlv) (r : N)
 | CAddVersion (h : hlv) (s v : N) (r : option hlv)
 | CInvalidate (h r : hlv)
@@ -53,6 +57,12 @@ Definition outcome_eqb (a b : outcome) : bool :=
   | _, _ => false
   end.
 
+Fixpoint pack4 (l : list N) : N :=
+  match l with
+  | [] => 0
+  | c :: r => c + 4 * pack4 r
+  end.
+
 Definition actor (e : ev) : N :=
   match e with EEdit r _ => r | EPull r _ _ => r | ERestart r => r end.
 
@@ -73,19 +83,19 @@ Definition check (c : case) : bool :=
   | CUnary h ss vs gv mx dom =>
       list_eqb (option_eqb N.eqb) (map (get_value h) ss) gv &&
       list_eqb N.eqb (map (max_value_for_source h) ss) mx &&
-      list_eqb (list_eqb Bool.eqb) (map (fun s => map (fun v => dominates h (s, v)) vs) ss) dom
+      list_eqb Bool.eqb (flat_map (fun s => map (fun v => dominates h (s, v)) vs) ss) dom
   | CMut h ss vs inv av atp =>
       hlv_eqb (invalidate_mv h) inv &&
-      list_eqb (list_eqb opt_hlv_eqb) (map (fun s => map (fun v => add_version h (s, v)) vs) ss) av &&
-      list_eqb (list_eqb (fun a b => hlv_eqb (fst a) (fst b) && (snd a =? snd b)))
-               (map (fun s => map (fun v => (fst (add_version_to_pv h s v), pvres_code (snd (add_version_to_pv h s v)))) vs) ss) atp
+      list_eqb opt_hlv_eqb (flat_map (fun s => map (fun v => add_version h (s, v)) vs) ss) av &&
+      list_eqb (fun a b => match a, b with HR ha ca, HR hb cb => hlv_eqb ha hb && (ca =? cb) end)
+               (flat_map (fun s => map (fun v => HR (fst (add_version_to_pv h s v)) (pvres_code (snd (add_version_to_pv h s v)))) vs) ss) atp
   | CBinRow h incs uh s v mg =>
       list_eqb hlv_eqb (map (update_history h) incs) uh &&
       list_eqb opt_hlv_eqb (map (merge_with_incoming h (s, v)) incs) mg
   | CGetValue h s r => option_eqb N.eqb (get_value h s) r
   | CDominates h s v r => Bool.eqb (dominates h (s, v)) r
   | CConflictTable hs rows =>
-      list_eqb (list_eqb N.eqb) (map (fun a => map (fun b => status_code (is_in_conflict a b)) hs) hs) rows
+      list_eqb N.eqb (map (fun a => pack4 (map (fun b => status_code (is_in_conflict a b)) hs)) hs) rows
   | CConflict hl hi r => status_code (is_in_conflict hl hi) =? r
   | CAddVersion h s v r => opt_hlv_eqb (add_version h (s, v)) r
   | CInvalidate h r => hlv_eqb (invalidate_mv h) r
